@@ -88,7 +88,7 @@ def build_ufo(spec, lib="defcon"):
 def build_designspace(ds, lib="defcon"):
     """ds spec: axes [{name, tag, min, default, max, map?}], sources [{ufo: ufo spec | index into
     'ufos', location {axisname: v}, layerName?, name?}], rules, lib, instances,
-    variableFonts [{name, axisSubsets [{name} (whole range) | {name, value} (user value)], lib?}].
+    variableFonts [{name, axisSubsets [{name} (whole range) | {name, range [min, default, max]} (user values) | {name, value}], lib?}].
     Returns (DesignSpaceDocument with source.font set, list of distinct font objects)."""
     from fontTools.designspaceLib import (
         AxisDescriptor, DesignSpaceDocument, InstanceDescriptor, RuleDescriptor,
@@ -138,6 +138,10 @@ def build_designspace(ds, lib="defcon"):
         for sub in vf_["axisSubsets"]:
             if "value" in sub:
                 subsets.append(ValueAxisSubsetDescriptor(name=sub["name"], userValue=sub["value"]))
+            elif "range" in sub:
+                lo, df, hi = sub["range"]
+                subsets.append(RangeAxisSubsetDescriptor(name=sub["name"], userMinimum=lo,
+                                                         userDefault=df, userMaximum=hi))
             else:
                 subsets.append(RangeAxisSubsetDescriptor(name=sub["name"]))
         vd = VariableFontDescriptor(name=vf_["name"], axisSubsets=subsets)
